@@ -396,4 +396,4 @@ def totals_store(fx):
                     okorder = False
     want = {("statistics.ipv4.torrents", "self.ipv4.0"), ("statistics.ipv6.torrents", "self.ipv6.0"),
             ("statistics.ipv4.peers", "self.ipv4.1"), ("statistics.ipv6.peers", "self.ipv6.1")}
-    yield ob("R-C20-5", "totals#udp#stored", stores == want and okorder, b, None, "stores %s; after both passes: %s" % (sorted(stores), okorder), {"stores": sorted(map(list, stores))})
+    yield ob("R-C20-5", "totals#udp#stored", stores == want and okorder, b, None, "stores %s; after both passes: %s" % (sorted(stores, key=str), okorder), {"stores": sorted(map(list, stores), key=str)})
